@@ -222,6 +222,7 @@ CORRUPTIONS = {      # one recorded field changed: the trace specification must 
     "DevicesTrace": ('"hasState":true', '"hasState":false'),
     "TimeIntTrace": ('"unit_ok":true', '"unit_ok":false'),
     "ProfileTrace": ('"hasAcc":true', '"hasAcc":false'),
+    "NumTrace": ('"bound":1000000', '"bound":-5'),
     "ProfileNumTrace": ('"piece":2', '"piece":3'),
     "RefThreadsTrace": ('"k":"inc","new":', '"k":"inc","new":9'),
 }
@@ -273,6 +274,13 @@ def trace_check(ctx, module, bindir, binname, rec_args, name, what, replay_kind,
     ctx.violation("%s:trace" % module, {"replay_kind": replay_kind, "trace": keep, "record_args": rec_args, "constants": constants or {}, "first_unmatched": unmatched[0]},
                   "%s: the trace recorded from the implementation is not a behaviour of %s.tla; %s" % (what, module, unmatched[0][:500]))
     return False
+
+
+@replayer("kin_numtrace")
+def replay_kin_numtrace(pid, v):
+    ctx = vlib.Ctx(pid + "_replay", "quick", 1)
+    ok = trace_check(ctx, "NumTrace", build_harness(["kin"]), "kin", v["record_args"], "update_floats", "State::update on arbitrary floats", "kin_numtrace")
+    return None if ok else ctx.violations[0][2]
 
 
 @replayer("timeint_cases")
@@ -384,7 +392,11 @@ def replay_kin(pid, v):
 
 @register("C14")
 def c14(ctx):
+    bindir = build_harness(["kin"])
     run_kin(ctx)
+    # arbitrary floats and arbitrary (odd) nanosecond intervals: State::update against the textbook formula in f64, compared by TLC
+    trace_check(ctx, "NumTrace", bindir, "kin", [ctx.seed, 4000 if ctx.tier == "quick" else 100000], "update_floats",
+                "State::update on arbitrary floats and nanosecond intervals", "kin_numtrace")
     # without dimension checking nothing is rejected, and commands of different kinds still must not be added
     import p_config
     run_kin(ctx, dimcheck=False, features=p_config.CONFIGS["std_nocheck"][0], tag="std_nocheck")
@@ -393,7 +405,10 @@ def c14(ctx):
                 "State::new with one wrongly dimensioned argument over the 49 units; arith: state and command operators with their assign "
                 "forms, 3x3 kind pairs for the panicking add/sub; chain: setter -> update -> command-from-state. Each case runs under 7 "
                 "concretisations (tick 1/8 s .. 16 s by rescaling velocity and acceleration; value scales 2^-140 .. 2^60 so that tiny and "
-                "subnormal derivatives still count as non-zero). TLC checks the textbook form, identity at dt = 0 and reversibility.")
+                "subnormal derivatives still count as non-zero). TLC checks the textbook form, identity at dt = 0 and reversibility. "
+                "impl -> spec: State::update on arbitrary floats (magnitudes 2^-8 .. 2^30) and intervals of 1 ns .. 1e5 s of either sign and any "
+                "parity is logged with its error against the textbook formula in f64 and a bound of 8 f32 epsilons of the terms; TLC validates "
+                "the log against NumTrace.tla.")
     ctx.assumptions += ["values are small rationals; agreement within 2^-16 of the largest term that feeds a component, bit-exact for setters, "
                         "accessors, command-from-state and round trips"]
     ctx.exhaustive = True
